@@ -27,6 +27,11 @@ func (e *kvElection) heartbeatLoop(ctx context.Context) {
 		case <-ctx.Done():
 			return
 		case <-ticker.C:
+			// select picks at random when both the tick and the cancellation are
+			// ready: never start another round of store operations once stopped.
+			if ctx.Err() != nil {
+				return
+			}
 			if !e.IsLeader() {
 				return
 			}
